@@ -76,7 +76,23 @@ def make(case, ratio=None):
     p["random_seed"] = case["seed"]
     if ratio is not None:
         p["cpu_io_ratio"] = ratio
-    return WorkloadGenerator(**p), p
+    g = WorkloadGenerator(**p)
+    # a second generator with other parameters is built *after* the observed one and stays alive next to it (a sweep
+    # that creates its workloads up front); it is ticked now and then - nothing of it may show in the observed one
+    q = dict(p)
+    q.update({"interactive_prob": p["batch_prob"], "query_prob": p["interactive_prob"], "batch_prob": p["query_prob"],
+              "num_pipelines": p["num_pipelines"] + 1, "num_operators": p["num_operators"] + 2,
+              "waiting_seconds_mean": p["waiting_seconds_mean"] * 3 + 1.0 / case["tps"], "random_seed": p["random_seed"] + 17,
+              "cpu_io_ratio": 1.0 - p["cpu_io_ratio"]})
+    other = WorkloadGenerator(**q)
+    for _ in range(5):
+        other.run_one_tick()
+    _NEIGHBOURS.append(other)
+    del _NEIGHBOURS[:-4]
+    return g, p
+
+
+_NEIGHBOURS = []
 
 
 def collect(g, p, max_events, max_ticks, mon, check_structure=True):
@@ -87,6 +103,8 @@ def collect(g, p, max_events, max_ticks, mon, check_structure=True):
     t = 0
     while len(events) < max_events and t < max_ticks:
         ps = g.run_one_tick()
+        if t % 7 == 3 and _NEIGHBOURS:
+            _NEIGHBOURS[-1].run_one_tick()
         if ps:
             events.append((t, ps))
             if check_structure:
